@@ -26,7 +26,7 @@ REQUIRED_THEOREMS = ['clock24', 'clock24_partial', 'clock24_hour0_unresolved', '
                      'time_range_duration_repaired',
                      # Props/C07TimePeriod (BaseTimePeriodParser / BaseDateTimeParser computations)
                      'pure_pm_rule', 'pure_am_rule', 'pure_triple_consistent', 'specific_both_described',
-                     'specific_triple_consistent', 'specific_12am_end_witness', 'specific_seconds_witness',
+                     'specific_triple_consistent', 'specific_right_pm_rule', 'specific_12am_end_witness', 'specific_seconds_witness',
                      'specific_minute_side_witness', 'parse_specific_shadows_merge', 'tod_table_rows', 'tod_windows',
                      'now_is_reference_datetime', 'end_of_day_is_235959', 'ago_later_seconds', 'ago_later_spec']
 RULE = ('unit: DateTimeFormatUtil over full ranges (luis_time/short_time 24x60x{none,0..59}, luis_date, format_*, '
